@@ -31,4 +31,11 @@ theorem foldl_applyOne_other (ovs : List Override) (ts : List RawTask) (i : Nat)
   | cons o os ih =>
     simp only [List.foldl_cons]
     rw [ih _ (fun o' ho' => h o' (List.mem_cons_of_mem _ ho')), applyOne_other _ _ _ (h o List.mem_cons_self)]
+/-- what an override does to the task it names: each attribute it carries replaces the base value, the others stay -/
+theorem applyOne_same (ts : List RawTask) (o : Override) (t : RawTask) (h : ts[o.task]? = some t) :
+    (applyOne ts o)[o.task]? = some { t with
+      effort := (o.effort <|> t.effort), start := (o.start <|> t.start), stop := (o.stop <|> t.stop) } := by
+  unfold applyOne
+  rw [List.getElem?_map, List.getElem?_zipIdx, h]
+  cases o.effort <;> cases o.start <;> cases o.stop <;> simp
 end SP
